@@ -19,7 +19,7 @@ pub fn prop() -> Prop {
          re-parsed AST with the same cfg is byte-identical. Non-trivial: the document has >= 3 definition kinds or a \
          description or a nested value; distinct by (text, cfg).",
     )
-    .random("documents", check, |t| if t == Tier::Quick { 600_000 } else { 8_000_000 }, |t| if t == Tier::Quick { 500 } else { 900 })
+    .random("documents", check, |t| if t == Tier::Quick { 1_500_000 } else { 8_000_000 }, |t| if t == Tier::Quick { 500 } else { 900 })
     .text(check_text_default)
     .assumptions(&["indent prefixes are whitespace-only strings (space/tab), as the property says"])
 }
